@@ -27,7 +27,8 @@ theorem printCptC_current (g : Grammar) (c : Cpt) : printCptC ⟨false, false, f
   unfold printCptC printCpt netTokensC netTokens
   simp [fmtArgsC_current]
 
-/-- **arg_format_fixed_unquote** (fix C06-e).  After the repair, `Arg.assign` reads back what
+/-- REMARK ABOUT THE PROPOSED PATCH fix-e (not a claim about /repo: neither the source nor the driver runs this
+    configuration, see `tie_theCfg`).  **arg_format_fixed_unquote.**  After the repair, `Arg.assign` reads back what
     `_arg_format` printed for EVERY value: the hypothesis "non-empty, not starting with `{` or `\"`" of
     `arg_format_roundtrip` is gone. -/
 theorem arg_format_fixed_unquote (cfg : PrinterCfg) (hE : cfg.fixE = true) (ds : List Char) (kws : List Str) (v : Str) :
@@ -59,7 +60,7 @@ example : argFormatC ⟨true, true, true⟩ Gen.Grammar.delimiters [] "{a}".toLi
 
 theorem lower_brace (x : Str) : lower ('{' :: x) = '{' :: lower x := by simp [lower]
 
-/-- **arg_format_fixed_not_keyword** (fix C06-a).  After the repair, a printed value is never spelt like a
+/-- REMARK ABOUT THE PROPOSED PATCH fix-a (not a claim about /repo).  **arg_format_fixed_not_keyword.**  After the repair, a printed value is never spelt like a
     keyword of the component type, so (`noMatch`) it cannot select a different rule: the hypothesis
     "no value equals a keyword" of the line-level round trip is gone for values. -/
 theorem arg_format_fixed_not_keyword (cfg : PrinterCfg) (hA : cfg.fixA = true) (ds : List Char) (kws : List Str)
@@ -92,7 +93,8 @@ theorem arg_format_fixed_not_keyword (cfg : PrinterCfg) (hA : cfg.fixA = true) (
         · exact hbr _
         · simpa using h3
 
-/-- **elision_fixed** (fix C06-b).  After the repair the printer omits an argument only if the rule that
+/-- REMARK ABOUT THE PROPOSED PATCH fix-b (not a claim about /repo; a propositional consequence of the guard that
+    `netTokensC` evaluates, stated on a copy of that expression).  **elision_fixed.**  After the repair the printer omits an argument only if the rule that
     the printed name and keyword select has `name` as the default of its first argument (or has no
     argument at all): the hypothesis "the elided argument's default is the name" is a property of the
     printer, no longer of the input. -/
@@ -105,15 +107,39 @@ theorem elision_fixed (cfg : PrinterCfg) (hB : cfg.fixB = true) (g : Grammar) (r
   · exact hd
   · simp [hd] at h
 
-/-- **netsubs_is_print.**  Since fix 8b2a96c `Cpt._netsubs()` (no substitution) prints through `_netmake1`: the
-    second printer of the library IS the first one, so every print → parse theorem (`line_roundtrip*`,
-    `netlist_roundtrip`, idempotence) holds for `subs` / `rename_nodes` output as well -- and it inherits
+/-- HELPER (the first branch of the definition of `netSubs`; the claim about the checked-out source is
+    `netsubs_source_is_printCpt` below).  Since fix 8b2a96c `Cpt._netsubs()` (no substitution) prints through `_netmake1`: the
+    second printer of the library IS the first one, so every print → parse theorem (`line_roundtrip_partial*`,
+    `netlist_roundtrip_partial`, idempotence) holds for `subs` / `rename_nodes` output as well -- and it inherits
     exactly the printer's known findings, no others. -/
 theorem netsubs_is_print (cfg : PrinterCfg) (g : Grammar) (c : Cpt) : netSubs true cfg g c = printCptC cfg g c := by
   simp [netSubs]
 
 /-- the checked-out source delegates (extracted by the translator; breaks if `_netsubs` gets its own loop again) -/
 theorem netsubs_delegates_in_source : Gen.Grammar.netsubsDelegates = true := by decide
+
+/-- **tie_theCfg.**  The checked-out source contains none of the three proposed printer repairs (flags extracted
+    by the translator from `_arg_format` / `_netmake1`).  Breaks loudly the day one of them lands in /repo: the
+    round-trip theorems are about `printCpt`, and must then be restated for the repaired printer. -/
+theorem tie_theCfg : theCfg = ⟨false, false, false⟩ := by decide
+
+/-- **tie_driver_printer.**  The printer the driver runs (and the correspondence compares with the real
+    `Cpt.__str__`) is the `printCpt` that `line_roundtrip*` / `netlist_roundtrip*` are about. -/
+theorem tie_driver_printer (c : Cpt) : printCptC theCfg theGrammar c = printCpt theGrammar c := by
+  rw [tie_theCfg]; exact printCptC_current theGrammar c
+
+/-- the same for the netlist printer of `c06.rt` -/
+theorem tie_driver_netlist_printer (s : NState) : printNetlistC theCfg theGrammar s = printNetlist theGrammar s := by
+  have : printCptC theCfg theGrammar = printCpt theGrammar := funext tie_driver_printer
+  simp [printNetlistC, printNetlist, this]
+
+/-- **netsubs_source_is_printCpt.**  For the checked-out source, `Cpt._netsubs()` with no substitution (what
+    the driver's `c06.netsubs` computes and the correspondence compares with the real `_netsubs`) is the
+    `printCpt` of the round-trip theorems: `subs` / `rename_nodes` output inherits them, and inherits exactly
+    the printer's known findings. -/
+theorem netsubs_source_is_printCpt (c : Cpt) :
+    netSubs Gen.Grammar.netsubsDelegates theCfg theGrammar c = printCpt theGrammar c := by
+  rw [netsubs_delegates_in_source, netsubs_is_print, tie_driver_printer]
 
 /-- what was wrong with the legacy loop (kept as a regression statement): a keyword at position 0 was
     written after the nodes, and an undefined non-final argument was dropped -/
